@@ -88,6 +88,16 @@ def hostile_line(rng):
         if rng.random() < 0.3:
             line = rng.choice(["", " ", "\t", "\"", "{", "'"]) + line + rng.choice(["", " ", ";", "\"", "}", " " + rng.choice(FRAGMENTS)])
         return line
+    if r < 0.68:
+        # keyword grammar: a secret keyword glued behind another token (host-key, public-key, my_password), every separator,
+        # every opening quote with a matching, another or no closing quote
+        q = rng.choice(["", '"', "'", '\\"', "\\'", "[", "{", "<"])
+        close = rng.choice([q, q, "", '"', "'", "]", "}", ";"])
+        return "%s%s%s%s%s%s%s%s" % (
+            rng.choice(["", " ", "  set "]), rng.choice(["", "", "host-", "public-", "ssh-", "pre-shared-", "my_", "x", "auth-", "tacacs-server ", "no "]),
+            rng.choice(["key", "password", "secret", "community", "key-string", "md5", "passphrase", "psk", "authentication-key", "encrypted-password"]),
+            rng.choice([" ", " ", "  ", "\t", " = ", ": ", " 7 ", " 0 ", " 5 "]), q,
+            rng.choice(FRAGMENTS + ["AAAA", "RemoveMe", "AAAAB3NzaC1yc2E"]), close, rng.choice(["", "", ";", " extra", " " + rng.choice(FRAGMENTS)]))
     if r < 0.85:
         return rng.choice(["", " "]) + " ".join(rng.choice(FRAGMENTS + ["password", "secret", "key", "snmp-server community", "set community"])
                                               for _ in range(rng.randint(1, 6)))
